@@ -675,14 +675,15 @@ func checkVersionsToApply(c *Ctx, fn *ssa.Function) {
 	}
 	// sort on the returned slice
 	var sortCall *ssa.Call
-	for _, call := range callsNamed(fn, "Slice") {
-		sortCall = call
+	var sorted ssa.Value
+	ok, why := false, ""
+	for _, st := range sortCallsIn(p, fn) {
+		sortCall, sorted, ok, why = st.call, st.sorted, st.ok, st.why
 	}
 	if sortCall == nil {
 		c.Check("C19-R2", "pending-sorted-ascending", fn.Pos(), false, "VersionsToApply does not sort the pending migrations")
 		return
 	}
-	sorted, ok, why := sortedAscendingByNumber(p, sortCall)
 	c.Check("C19-R2", "pending-sorted-ascending", sortCall.Pos(), ok, "the pending migrations are not sorted ascending by number: "+why)
 	// returned slice is the sorted variable, and sort happens on every path to return
 	okRet := true
@@ -703,8 +704,8 @@ func checkVersionsToApply(c *Ctx, fn *ssa.Function) {
 func checkGetLatest(c *Ctx, fn *ssa.Function) {
 	p := c.P
 	// shape (a): sort ascending then last element's Number
-	for _, call := range callsNamed(fn, "Slice") {
-		sorted, ok, why := sortedAscendingByNumber(p, call)
+	for _, st := range sortCallsIn(p, fn) {
+		call, sorted, ok, why := st.call, st.sorted, st.ok, st.why
 		okLast := false
 		for _, b := range fn.Blocks {
 			for _, ins := range b.Instrs {
@@ -984,6 +985,58 @@ func migrationReach(p *Program) map[string]bool {
 			if p.all[g] {
 				out[fnName(g)] = true
 			}
+		}
+	}
+	return out
+}
+
+// sortCallsIn: the ascending-sort steps of fn: sort.Slice calls in fn itself, and calls of a private part of the package
+// whose body sorts its own slice parameter that way (`sortVersions(pending)`). For each: the call in fn, the variable
+// of fn that is sorted, whether the comparator is the ascending one, and the reason if not.
+type sortStep struct {
+	call   *ssa.Call
+	sorted ssa.Value
+	ok     bool
+	why    string
+}
+
+func sortCallsIn(p *Program, fn *ssa.Function) []sortStep {
+	var out []sortStep
+	for _, ci := range callsOf(fn) {
+		call, ok := ci.(*ssa.Call)
+		if !ok {
+			continue
+		}
+		g := call.Call.StaticCallee()
+		if g == nil {
+			continue
+		}
+		if calleeShort(&call.Call) == "Slice" && fnPkgPath(g) == "sort" {
+			sorted, ok, why := sortedAscendingByNumber(p, call)
+			out = append(out, sortStep{call, sorted, ok, why})
+			continue
+		}
+		if len(g.Blocks) == 0 || fnPkgPath(g) != fnPkgPath(fn) || g.Object() == nil || g.Object().Exported() || g == fn {
+			continue
+		}
+		for _, inner := range callsNamed(g, "Slice") {
+			sorted, ok, why := sortedAscendingByNumber(p, inner)
+			prm, isPrm := sorted.(*ssa.Parameter)
+			if al, isAl := sorted.(*ssa.Alloc); isAl && isParamSpill(al) { // captured by the comparator: spilled
+				for _, st := range storesTo(al) {
+					if q, ok := st.Val.(*ssa.Parameter); ok {
+						prm, isPrm = q, true
+					}
+				}
+			}
+			if !isPrm || prm.Parent() != g {
+				continue
+			}
+			idx := paramIndex(g, prm)
+			if idx < 0 || idx >= len(call.Call.Args) {
+				continue
+			}
+			out = append(out, sortStep{call, sliceVarOf(stripConv(call.Call.Args[idx])), ok, why})
 		}
 	}
 	return out
